@@ -1575,4 +1575,81 @@ theorem retained_longest_fitting_header_bytes {tv : TVar} {tf : Option Nat} {p :
   retained_longest_fitting (templ_ok_exact h).1 (total_antitone_header_bytes cfg tv msgs tools)
 
 
+
+/-! ### failures have a cause (round 7) -/
+
+
+
+
+/-- **Every failure has its cause** (converse of `chatPrompt_total`): "single image per message" only for an mllama
+    model and a message with more than one image; a measuring failure at `i` only if rendering / tokenizing candidate
+    `i` fails; a preprocessing failure only for an mllama model with a projector and an undecodable image; the panic
+    only for the empty conversation. -/
+theorem errors_are_justified :
+    (chatPrompt cfg cost bad msgs = .errTooMany → cfg.mllama = true ∧ ∃ m ∈ msgs, 1 < m.images.length) ∧
+    (∀ i, chatPrompt cfg cost bad msgs = .execFail i → bad i = true ∧ i < msgs.length) ∧
+    (chatPrompt cfg cost bad msgs = .errPreprocess → ¬ ∀ m ∈ msgs, ∀ im ∈ m.images, imgOk cfg im) ∧
+    (chatPrompt cfg cost bad msgs = .panicEmpty → msgs = []) := by
+  refine ⟨?_, ?_, ?_, ?_⟩
+  · intro h
+    unfold chatPrompt at h
+    cases msgs with
+    | nil => cases h
+    | cons m ms =>
+      simp only at h
+      split at h
+      · rename_i hs
+        obtain ⟨hm, i, _, hi⟩ := scan_err_inv cfg cost bad (m :: ms) _ _ _ _ hs
+        refine ⟨hm, ?_⟩
+        rcases imagesAt_cases (m :: ms) i with h0 | ⟨x, hx, he⟩
+        · rw [h0] at hi; simp at hi
+        · exact ⟨x, hx, by rw [← he]; exact hi⟩
+      · cases h
+      · split at h <;> cases h
+  · intro i h
+    unfold chatPrompt at h
+    cases msgs with
+    | nil => cases h
+    | cons m ms =>
+      simp only at h
+      split at h
+      · cases h
+      · rename_i j hs
+        injection h with h
+        subst h
+        exact scan_fail_inv cfg cost bad (m :: ms) _ _ _ _ _ hs
+      · split at h <;> cases h
+  · intro h hall
+    unfold chatPrompt at h
+    cases msgs with
+    | nil => cases h
+    | cons m ms =>
+      simp only at h
+      split at h
+      · cases h
+      · cases h
+      · rename_i n s q hs
+        obtain ⟨r, hr⟩ := rewriteAll_total cfg ((m :: ms).drop n) []
+          (fun x hx => hall x (List.mem_of_mem_drop hx))
+        rw [hr] at h
+        cases h
+  · intro h
+    unfold chatPrompt at h
+    cases msgs with
+    | nil => rfl
+    | cons m ms =>
+      simp only at h
+      split at h
+      · cases h
+      · cases h
+      · split at h <;> cases h
+
+
+/-- non-vacuity: each failure is reachable, with its cause -/
+example :
+    chatPrompt ⟨true, true, 2, 100⟩ (fun _ => 1) (fun _ => false) [⟨.user, txt bHi, [⟨1, true⟩, ⟨2, true⟩]⟩] = .errTooMany ∧
+    chatPrompt ⟨true, true, 2, 100⟩ (fun _ => 1) (fun _ => false) [⟨.user, txt bHi, [⟨1, false⟩]⟩] = .errPreprocess ∧
+    chatPrompt ⟨true, false, 0, 100⟩ (fun _ => 1) (fun i => i == 0) [⟨.user, txt bHi, []⟩, ⟨.user, txt bHi, []⟩] = .execFail 0 ∧
+    chatPrompt ⟨true, false, 0, 100⟩ (fun _ => 1) (fun _ => false) [] = .panicEmpty := by decide
+
 end OllamaVerif.C19
